@@ -964,18 +964,39 @@ func ruleP13Reduce(p *Prog, r *Report) {
 			continue
 		}
 		rec := f.Params[1]
-		for i, ret := range returnsOf(f) {
-			v := strip(retResult(ret, 0))
+		// the record handed back: the one received, a faithful copy, or whatever a shared tail
+		// helper hands back for it
+		var recordOK func(v ssa.Value, at *ssa.Return, depth int) (bool, bool)
+		recordOK = func(v ssa.Value, at *ssa.Return, depth int) (isNil bool, ok bool) {
 			if isNilConst(v) {
-				continue
+				return true, true
 			}
-			key := fmt.Sprintf("%s:return#%d", name, i)
-			if v == ssa.Value(rec) {
-				r.ok(rule, key, p.instrPos(ret), "hands back the record it received")
-				continue
+			if strip(v) == ssa.Value(rec) || strip(deref(v)) == ssa.Value(rec) {
+				return false, true
+			}
+			// through a helper (one or several call sites)
+			var hc *ssa.Call
+			switch x := v.(type) {
+			case *ssa.Extract:
+				hc, _ = x.Tuple.(*ssa.Call)
+			case *ssa.Call:
+				hc = x
+			}
+			if hc != nil && depth < 3 {
+				if h := rawStaticCallee(hc); h != nil && isHelper(h) {
+					all := true
+					vcall{call: hc, chain: []ssa.CallInstruction{hc}}.run(func() {
+						for _, hr := range plainReturnsOf(originFn(h)) {
+							if _, good := recordOK(hr.Results[0], hr, depth+1); !good {
+								all = false
+							}
+						}
+					})
+					return false, all
+				}
 			}
 			// a fresh record: date, should-total and summary must be carried over
-			c, _ := callOf(v)
+			c, _ := callOf(strip(v))
 			okFresh := c != nil && calleeName(c) == "klog.NewRecord"
 			if okFresh {
 				if n, rv, _, _ := methodCall(c.Common().Args[0]); n != "Date" || strip(rv) != ssa.Value(rec) {
@@ -985,7 +1006,7 @@ func ruleP13Reduce(p *Prog, r *Report) {
 				for _, ref := range *c.Value().Referrers() {
 					if ci, ok := ref.(ssa.CallInstruction); ok {
 						n, _, args, _ := methodCallOf(ci)
-						if getter, isNeeded := need[n]; isNeeded && len(args) == 1 && ci.Block().Dominates(ret.Block()) {
+						if getter, isNeeded := need[n]; isNeeded && len(args) == 1 && ci.Block().Dominates(at.Block()) {
 							if gn, grv, _, _ := methodCall(args[0]); gn == getter && strip(grv) == ssa.Value(rec) {
 								delete(need, n)
 							}
@@ -996,44 +1017,74 @@ func ruleP13Reduce(p *Prog, r *Report) {
 					okFresh = false
 				}
 			}
-			r.check(okFresh, rule, key, p.instrPos(ret), "hands back a fresh record carrying the date, should-total and summary of the one received", "the record handed back is neither the one received nor a copy that keeps its date, should-total and summary: filtering entries alters the rest of the record")
+			return false, okFresh
+		}
+		for i, ret := range plainReturnsOf(f) {
+			key := fmt.Sprintf("%s:return#%d", name, i)
+			isNil, good := recordOK(ret.Results[0], ret, 0)
+			if isNil {
+				continue
+			}
+			r.check(good, rule, key, p.instrPos(ret), "hands back the record it received (or a copy carrying its date, should-total and summary)", "the record handed back is neither the one received nor a copy that keeps its date, should-total and summary: filtering entries alters the rest of the record")
 		}
 		// (b) the keep decision
 		n := 0
-		eachInstr(f, func(in ssa.Instruction) {
-			c, ok := in.(*ssa.Call)
-			if !ok {
-				return
+		isMatchCall := func(v ssa.Value) bool {
+			cc, _ := callOf(strip(v))
+			if cc == nil {
+				return false
 			}
-			b, isB := c.Call.Value.(*ssa.Builtin)
-			if !isB || b.Name() != "append" || !isSliceOf(c.Type(), "Entry") {
-				return
-			}
-			n++
-			var inLoop []Guard
-			for _, g := range guardsOf(c.Block()) {
-				if isLoopGuard(g) {
-					break
+			callee := staticCallee(cc)
+			return callee != nil && (sameFn(callee, p.fn("klog/service", "isSubsetOf")) || fnBase(callee) == "Unbox")
+		}
+		for _, vi := range virtualInstrs(f) {
+			vi := vi
+			vi.run(func() {
+				in := vi.in
+				c, ok := in.(*ssa.Call)
+				if !ok {
+					return
 				}
-				inLoop = append(inLoop, g)
-			}
-			okg := len(inLoop) == 1
-			if okg {
-				cc, _ := callOf(strip(inLoop[0].Cond))
-				callee := (*ssa.Function)(nil)
-				if cc != nil {
-					callee = staticCallee(cc)
+				b, isB := c.Call.Value.(*ssa.Builtin)
+				if !isB || b.Name() != "append" || !isSliceOf(c.Type(), "Entry") {
+					return
 				}
-				okg = callee != nil && (sameFn(callee, p.fn("klog/service", "isSubsetOf")) || fnBase(callee) == "Unbox") && inLoop[0].Pol
-			}
-			detail := ""
-			if !okg {
-				for _, g := range inLoop {
-					detail += fmt.Sprintf(" [%v %s]", g.Pol, g.Cond.String())
+				n++
+				var inLoop []Guard
+				for _, g := range guardsOf(c.Block()) {
+					if isLoopGuard(g) {
+						break
+					}
+					inLoop = append(inLoop, g)
 				}
-			}
-			r.check(okg, rule, name+":keep", p.instrPos(c), "an entry is kept iff the match test holds; every entry is tested", "keeping an entry depends on more than the match test (entries are skipped before they are tested):"+detail)
-		})
+				okg := len(inLoop) == 1 && inLoop[0].Pol
+				if okg {
+					cond := inLoop[0].Cond
+					okg = isMatchCall(cond)
+					if !okg {
+						// the test is a predicate handed to a shared helper: every return of the
+						// predicate literal is the match test
+						if dc, isCall := cond.(*ssa.Call); isCall && !dc.Call.IsInvoke() && isParamValue(dc.Call.Value) {
+							if lit := funcLiteral(dc.Call.Value); lit != nil {
+								okg = true
+								for _, lr := range plainReturnsOf(lit) {
+									if !isMatchCall(lr.Results[0]) {
+										okg = false
+									}
+								}
+							}
+						}
+					}
+				}
+				detail := ""
+				if !okg {
+					for _, g := range inLoop {
+						detail += fmt.Sprintf(" [%v %s]", g.Pol, g.Cond.String())
+					}
+				}
+				r.check(okg, rule, name+":keep", p.instrPos(c), "an entry is kept iff the match test holds; every entry is tested", "keeping an entry depends on more than the match test (entries are skipped before they are tested):"+detail)
+			})
+		}
 		if n != 1 {
 			r.undecided(rule, name+":keep", p.pos(f.Pos()), "expected one append of a matching entry, found %d", n)
 		}
@@ -2211,4 +2262,9 @@ func eachInstrIn(fs []*ssa.Function, fn func(ssa.Instruction)) {
 	for _, f := range fs {
 		eachInstr(f, fn)
 	}
+}
+
+func isParamValue(v ssa.Value) bool {
+	_, ok := v.(*ssa.Parameter)
+	return ok
 }
